@@ -280,6 +280,30 @@ def rule_r4(chk):
     src = unparse(vb).replace(" ", "")
     ok = "dynamic=_deblank(visited_children[0])" in src and "steady=_deblank(visited_children[1])" in src and "return(dynamic,steady)" in src
     chk.ob("C04-R4", "parsers.models._Visitor.visit_eqn_body", ok, "returns (dynamic, steady) in grammar order eqn_version eqn_steady", mm.loc(vb))
+    # the all-but flag must be recorded whatever the log list contains (an empty list with !all-but means "all")
+    adders = []
+    for name, g in mm.methods("_Visitor").items():
+        env_ = {n.targets[0].id: n.value for n in walk_no_nested(g) if isinstance(n, ast.Assign) and isinstance(n.targets[0], ast.Name)}
+        for c in ast.walk(g):
+            if isinstance(c, ast.Call) and unparse(c.func) == "self._add" and c.args:
+                a0 = c.args[0]
+                a0 = env_.get(a0.id, a0) if isinstance(a0, ast.Name) else a0
+                if isinstance(a0, ast.Constant) and a0.value == "all-but":
+                    adders.append((name, g, c))
+    if not adders:
+        chk.bad("C04-R4", "parsers.models._Visitor[all-but recorded]", "no visitor records the !all-but flag", mm.loc(vis))
+    for name, g, c in adders:
+        early = [r for r in walk_no_nested(g) if isinstance(r, ast.Return) and r.lineno < c.lineno]
+        cond = []
+        cur = c
+        while getattr(cur, "_parent", None) is not None and cur._parent is not g:
+            cur = cur._parent
+            if isinstance(cur, ast.If):
+                cond.append(unparse(cur.test))
+        ok = not early and not cond
+        chk.ob("C04-R4", f"parsers.models._Visitor.{name}[all-but unconditional]", ok,
+               "the flag is recorded on every visit" if ok else
+               f"the flag is recorded only when {cond or 'an earlier return is not taken'}: '!log-variables !all-but' with an empty list loses it", mm.loc(c))
     # _populate_logly: listed -> not all_but ; unlisted -> all_but
     pl = sm.func("ModelSource._populate_logly")
     chk.saw(sm, "ModelSource._populate_logly")
